@@ -294,6 +294,19 @@ fn check(prop: &PropDef, args: &Args) -> i32 {
         }
     }
 
+    for (i, why) in (prop.post)(&cases, &impl_ans) {
+        if let Some(k) = known_match(&known, prop.id, &cases[i], &impl_ans[i]) {
+            known_seen.entry(k.id.clone()).or_insert_with(|| k.what.clone());
+            continue;
+        }
+        if violations.len() < 25 {
+            violations.push(json!({
+                "case": cases[i].model_line(i), "kind": cases[i].kind, "payload": cases[i].payload, "src": cases[i].src,
+                "impl": impl_ans[i], "model": model_ans[i], "predicate_failure": why, "failing_input_found": true,
+                "from_corpus": i < n_corpus,
+            }));
+        }
+    }
     for (id, what) in &known_seen {
         println!("KNOWN-FINDING: property={} {} {}", prop.id, id, what);
     }
